@@ -16,7 +16,18 @@ impl FromText for InitialAttributions { fn from_text(s: &str) -> Self { InitialA
 fn valid_json(s: &str) -> bool { let t = s.trim(); t.len() >= 2 && t.starts_with('{') && t.ends_with('}') && !t.contains("!!") }
 mod serde_json { pub fn from_str<T: super::FromText>(s: &str) -> Result<T, String> { if super::valid_json(s) { Ok(T::from_text(s)) } else { Err(format!("expected value at {:?}", s.chars().take(8).collect::<String>())) } } }
 fn debug_log(_m: &str) {}
-pub struct PersistedWorkingLog { pub initial_file: PathBuf }
+pub struct PersistedWorkingLog { pub initial_file: PathBuf, pub dir: PathBuf }
+use std::collections::HashMap;
+impl From<std::io::Error> for GitAiError { fn from(e: std::io::Error) -> Self { GitAiError::Generic(e.to_string()) } }
+pub const CHECKPOINT_API_VERSION: &str = "checkpoint/1.0.0";
+#[derive(Debug, Clone, PartialEq, Eq)] pub struct AgentId { pub id: String, pub tool: String }
+#[derive(Debug, Clone, PartialEq, Eq)] pub struct Attr { pub author_id: String }
+#[derive(Debug, Clone, PartialEq, Eq)] pub struct LAttr { pub author_id: String, pub overrode: Option<String> }
+#[derive(Debug, Clone, PartialEq, Eq)] pub struct Entry { pub attributions: Vec<Attr>, pub line_attributions: Vec<LAttr> }
+/// stand-in checkpoint: `{"v":"<api version>","n":<tag>}`
+#[derive(Debug, Clone, PartialEq, Eq)] pub struct Checkpoint { pub api_version: String, pub agent_id: Option<AgentId>, pub entries: Vec<Entry>, pub raw: String }
+impl FromText for Checkpoint { fn from_text(s: &str) -> Self { let v = s.split("\"v\":\"").nth(1).and_then(|r| r.split('"').next()).unwrap_or("").to_string(); Checkpoint { api_version: v, agent_id: None, entries: vec![], raw: s.to_string() } } }
+fn generate_short_hash(id: &str, tool: &str) -> String { format!("{:0<16}", format!("{}{}", tool, id)) }
 include!("@ITEMS@");
 use std::panic::{catch_unwind, AssertUnwindSafe};
 struct Ctx { evaluated: u64, failed: std::collections::HashSet<String> }
@@ -65,10 +76,31 @@ fn chk_initial(c: &mut Ctx, kind: &str) {
         "badutf8" => { fs::write(&f, [0xffu8, 0xfe, 0x7b, 0x7d]).unwrap(); InitialAttributions::default() }
         k => { let t = &k[5..]; fs::write(&f, t).unwrap(); if valid_json(t) { InitialAttributions(t.to_string()) } else { InitialAttributions::default() } }
     };
-    let w = PersistedWorkingLog { initial_file: f };
+    let w = PersistedWorkingLog { initial_file: f, dir: dir.clone() };
     match guarded(move || w.read_initial_attributions()) {
         Err(p) => c.fail("PersistedWorkingLog::read_initial_attributions", "safety", input, p, "no panic: unreadable state reads as empty".into()),
         Ok(g) => if g != want { c.fail("PersistedWorkingLog::read_initial_attributions", "ensures#0", input, format!("{:?}", g), format!("{:?}", want)); },
+    }
+    let _ = fs::remove_dir_all(&dir);
+}
+/// the checkpoint journal: lines as written to <dir>/checkpoints.jsonl ("missing" = no file)
+fn chk_journal(c: &mut Ctx, lines: Option<&[String]>, sep: &str) {
+    c.evaluated += 1;
+    let input = format!("JOURNAL#{}", match lines { None => "missing".to_string(), Some(l) => esc(&l.join(sep)) });
+    let dir = std::env::temp_dir().join(format!("gitai-verif-journal-cp-{}-{}", std::process::id(), c.evaluated));
+    let _ = fs::remove_dir_all(&dir); fs::create_dir_all(&dir).unwrap();
+    let want: Result<Vec<String>, ()> = match lines {
+        None => Ok(vec![]),
+        Some(l) => { let text = l.join(sep); fs::write(dir.join("checkpoints.jsonl"), &text).unwrap();
+            let mut out = vec![]; let mut bad = false;
+            for ln in text.lines() { if ln.trim().is_empty() { continue; } if !valid_json(ln) { bad = true; break; } if ln.contains("\"v\":\"checkpoint/1.0.0\"") { out.push(ln.to_string()); } }
+            if bad { Err(()) } else { Ok(out) } }
+    };
+    let w = PersistedWorkingLog { initial_file: dir.join("INITIAL"), dir: dir.clone() };
+    match guarded(move || w.read_all_checkpoints().map(|v| v.into_iter().map(|c| c.raw).collect::<Vec<String>>())) {
+        Err(p) => c.fail("PersistedWorkingLog::read_all_checkpoints", "safety", input, p, "no panic".into()),
+        Ok(Ok(g)) => match want { Ok(w) => if g != w { c.fail("PersistedWorkingLog::read_all_checkpoints", "ensures#2", input, format!("{:?}", g), format!("{:?}", w)); }, Err(()) => c.fail("PersistedWorkingLog::read_all_checkpoints", "ensures#1", input, format!("Ok({} checkpoints)", g.len()), "Err: a journal with a damaged line is refused as a whole, never used with a line missing".into()) },
+        Ok(Err(e)) => if want.is_ok() { c.fail("PersistedWorkingLog::read_all_checkpoints", "ensures#1", input, format!("Err({:?})", e), "Ok".into()); },
     }
     let _ = fs::remove_dir_all(&dir);
 }
@@ -82,6 +114,13 @@ fn search(c: &mut Ctx, only: &str, seed: u64) {
         // more than 200 events, with corrupt lines in between
         for bad_every in [0usize, 3, 7] { let ls: Vec<String> = (0..450).map(|i| if bad_every > 0 && i % bad_every == 0 { "{\"cut".to_string() } else { format!("{{\"n\":{}}}", i) }).collect(); chk_log(c, &ls, "\n"); }
     }
+    if all || only == "PersistedWorkingLog::read_all_checkpoints" {
+        const CP: &[&str] = &["{\"v\":\"checkpoint/1.0.0\",\"n\":1}", "{\"v\":\"checkpoint/1.0.0\",\"n\":2}", "{\"v\":\"checkpoint/0.9\",\"n\":3}", "", "   ", "{\"v\":\"checkpoint/1.0.0\",\"n\":4", "garbage"];
+        chk_journal(c, None, "\n");
+        let n = CP.len();
+        for a in 0..n { for b in 0..n { for d in 0..n { chk_journal(c, Some(&[CP[a].to_string(), CP[b].to_string(), CP[d].to_string()]), "\n"); } } }
+        chk_journal(c, Some(&[CP[0].to_string(), CP[1].to_string()]), "\r\n");
+    }
     if all || only == "PersistedWorkingLog::read_initial_attributions" {
         for k in ["missing", "dir", "badutf8", "text:", "text:{}", "text:{\"files\":{}}", "text:{\"files\":", "text:garbage", "text:\u{0}", "text:{!!}", "text:  {\"a\":1}\n"] { chk_initial(c, k); }
     }
@@ -92,7 +131,7 @@ fn main() {
     let mut c = Ctx { evaluated: 0, failed: Default::default() };
     match a[1].as_str() {
         "search" => search(&mut c, &a[2], a[3].parse().unwrap_or(1)),
-        "replay" => { let inp = &a[3]; if let Some(t) = inp.strip_prefix("LOG#") { chk_log(&mut c, &[unesc(t)], "\n"); } else if let Some(k) = inp.strip_prefix("INITIAL#") { chk_initial(&mut c, &unesc(k)); } }
+        "replay" => { let inp = &a[3]; if let Some(t) = inp.strip_prefix("LOG#") { chk_log(&mut c, &[unesc(t)], "\n"); } else if let Some(k) = inp.strip_prefix("INITIAL#") { chk_initial(&mut c, &unesc(k)); } else if let Some(k) = inp.strip_prefix("JOURNAL#") { if k == "missing" { chk_journal(&mut c, None, "\n"); } else { chk_journal(&mut c, Some(&[unesc(k)]), "\n"); } } }
         _ => {}
     }
     println!("DONE evaluated={}", c.evaluated);
